@@ -122,6 +122,49 @@ def site_key(T_name, label):
     return "messages.go:%s.Deserialize:%s" % (T_name, label)
 
 
+SIMPLE_ELEMS = ("bytes", "uint", "sint", "varint", "varbytes", "bool")
+
+
+def list_paths(f, prefix=()):
+    """paths (field names) of the list fields with simple elements inside a format"""
+    k = f["k"]
+    res = []
+    if k == "struct":
+        for name, ff in f["fields"]:
+            res += list_paths(ff, prefix + (name,))
+    elif k == "opt":
+        res += list_paths(f["elem"], prefix)
+    elif k == "list" and f["elem"]["k"] in SIMPLE_ELEMS and not (f["elem"]["k"] == "varbytes" and f["elem"].get("chk")):
+        res.append(prefix)
+    return res
+
+
+def set_list_len(f, v, path, N, rng, pool):
+    """a copy of value v whose list at `path` has N elements; None if the path is absent (nil optional)"""
+    k = f["k"]
+    if k == "struct":
+        out = []
+        hit = False
+        for (name, ff), (vn, vv) in zip(f["fields"], v[1]):
+            if path and name == path[0]:
+                nv = set_list_len(ff, vv, path[1:], N, rng, pool)
+                if nv is None:
+                    return None
+                out.append((vn, nv))
+                hit = True
+            else:
+                out.append((vn, vv))
+        return ("s", out) if hit else None
+    if k == "opt":
+        if v[1] is None:
+            return None
+        nv = set_list_len(f["elem"], v[1], path, N, rng, pool)
+        return None if nv is None else ("o", nv)
+    if k == "list" and not path:
+        return ("l", [cl.gen_value(f["elem"], rng.fork(i), pool, small=True) for i in range(N)])
+    return None
+
+
 def extra(tier, rng, workdir):
     T, J = cl.load_schemas()
     failures, red = [], []
@@ -178,6 +221,24 @@ def extra(tier, rng, workdir):
             nsites += 1
             for h in HOSTILE:
                 items.append({"T": x["T"], "bs": b[:off] + cl.varint(h) + b[off + ln:], "origin": "overwrite", "site": label + ":" + kind, "claimed": h})
+    # 1b honest long lists: every list site once with more elements than any pre-allocation clamp (1024) ------
+    long_vals = []
+    for ti, name in enumerate(names):
+        for path in list_paths(T[name]["r"]):
+            for N in ((1025,) if quick else (1024, 1025, 1500, 3000)):
+                v = None
+                for attempt in range(12):
+                    cand = cl.gen_value(T[name]["r"], rng.fork(880000 + ti * 1000 + attempt), pool, small=True)
+                    v = set_list_len(T[name]["r"], cand, path, N, rng.fork(881000 + ti), pool)
+                    if v is not None:
+                        break
+                if v is not None:
+                    long_vals.append({"T": name, "v": v, "path": "/".join(path), "N": N})
+    if long_vals:
+        lobs, _ = harness_ops([["ser", x["T"], cl.to_json(x["v"])] for x in long_vals], workdir, "serlong")
+        for x, o in zip(long_vals, lobs):
+            if o and o[0] == 0:
+                items.append({"T": x["T"], "bs": bytes(o[1:]), "origin": "long-list", "site": "%s:len%d" % (x["path"], x["N"])})
     # 2 the witnesses of props/C20.v --------------------------------------------------------------------
     wit, err = coq_witnesses(workdir, names_all)
     if wit is None:
@@ -229,7 +290,7 @@ def extra(tier, rng, workdir):
                 it["T"], n, CLASS_NAMES.get(o[0], o[0]), ", allocated %d bytes" % o[2] if len(o) > 2 and o[2] > 0 else ""),
                 "type": ri["T"], "input": ri["bs"].hex(), "observed": o, "child": ri.get("why"), "origin": it["origin"],
                 "claimed_count": it.get("claimed"), "ops": [["de", ri["T"], ri["bs"].hex()]]})
-        if p is not None:
+        if p is not None and len(it["bs"]) <= 4000:      # long honest inputs are checked on the real decoders only
             model_rows.append('("%s", %s, %s)' % (it["T"], cl.otable_coq(p["used"]), cl.zl(it["bs"])))
             model_idx.append(ri)
     for si in stor_items:
